@@ -553,7 +553,7 @@ Proof. unfold obj_acceptedb. intros H. apply existsb_exists in H. destruct H as 
   exists ob, refl, cmp. split; auto. apply in_app_iff in Hob. destruct Hob as [Hob|Hob]; eapply objs_of_ref; eauto. Qed.
 
 Theorem check_C20_sound i out : check_C20 i out = true -> C20_holds i out.
-Proof. destruct i as [[A B] f]. unfold check_C20, C20_holds. rewrite !andb_true_iff, !forallb_forall. intros [[H1 H2] H3].
+Proof. destruct i as [[A B] f]. unfold check_C20, C20_holds. rewrite !andb_true_iff, !forallb_forall. intros [[[[H1 H2] H3] H4] H5].
   split; [|split; auto].
   - intros o Ho. specialize (H1 o Ho). apply andb_true_iff in H1. destruct H1 as [Ha Hb].
     split; eapply obj_acceptedb_sound; eauto.
@@ -567,13 +567,64 @@ Proof. intros [H1 H2]. split.
     + rewrite (keys_map c_name reflect_col reflect_col_name). auto.
     + rewrite (keys_map f_name reflect_fk reflect_fk_name). auto. Qed.
 
+Lemma nref_eqb_refl r : nref_eqb r r = true.
+Proof. destruct r; simpl; rewrite ?N.eqb_refl; auto. Qed.
+Lemma tcall_eqb_refl c : tcall_eqb c c = true.
+Proof. destruct c; simpl; rewrite ?nref_eqb_refl, ?eqb_reflx, ?list_eqbN_refl; auto. Qed.
+Lemma name_calls_okb_refl l : name_calls_okb l l = true.
+Proof. unfold name_calls_okb. apply forallb_forall. intros c Hc. destruct (is_name_call c); simpl; auto.
+  apply existsb_exists. exists c. split; auto. apply tcall_eqb_refl. Qed.
+Lemma ops_equiv_refl l : ops_equiv l l = true.
+Proof. apply mset_eqb_refl. apply op_eqb_refl. Qed.
+
 Theorem model_C20_holds i : inclass_C20 i = true -> C20_holds i (model_C20 i).
 Proof. destruct i as [[A B] f]. unfold inclass_C20. simpl. rewrite andb_true_iff. intros [Hin Hu]. apply inclass_C06_core_wf in Hin. simpl in Hin. destruct Hin as [HA HB].
   apply named_of_no_unnamed in Hu.
-  apply wf_nd_schema in HA. apply wf_nd_schema in HB. apply nd_schema_reflect in HA. split; [|split].
+  apply wf_nd_schema in HA. apply wf_nd_schema in HB. apply nd_schema_reflect in HA. split; [|split; [|split; [|split]]].
+  4:{ exact (name_calls_okb_refl (calls_f (io_of f) (iname_of f) (fl_attached f) (reflect_sqlite A) B)). }
+  4:{ exact (ops_equiv_refl (diff_f (io_of f) (iname_of f) g20 (reflect_sqlite A) B)). }
   - intros o Ho. apply (diff_f_In _ _ _ _ _ _ Ho).
   - intros o Ho. apply (diff_f_In _ _ _ _ _ _ Ho).
   - unfold conservativeb. rewrite andb_true_iff, !forallb_forall. split; intros o Ho.
     + destruct (acc _ _ _ _ o) eqn:E; simpl; auto. apply inb_of_In. apply (diff_f_conservative _ _ g20 _ B o HA HB Hu E). auto.
     + destruct (acc _ _ _ _ o) eqn:E; simpl; auto. apply inb_of_In. apply (diff_f_conservative _ _ g20 _ B o HA HB Hu E). auto.
 Qed.
+
+(* ================================================================ "treated as absent" *)
+(* without an object filter the filtered comparison IS the plain comparison of the database from which every object has been
+   removed whose reflected name include_name rejects *)
+Section NameAbsent.
+  Variable iname : nref -> bool.
+  Notation T := (fun (_:obj) (_:bool) (_:option obj) => true).
+
+  Lemma obj_added_T tn s c k : obj_added_f T tn s c k = obj_added tn s c k.
+  Proof. destruct k; reflexivity. Qed.
+  Lemma obj_removed_T tn s c k : obj_removed_f T tn s c k = obj_removed tn s c k.
+  Proof. destruct k; reflexivity. Qed.
+
+  Lemma ciu_T_some c mt : compare_indexes_and_uniques_f T iname (t_name c) (Some c) mt
+                          = compare_indexes_and_uniques (t_name c) (Some (prune_table iname c)) mt.
+  Proof. destruct mt as [m|]; unfold compare_indexes_and_uniques_f, compare_indexes_and_uniques, conn_cons_f, conn_uq_sigs_f, conn_uq_sigs;
+      cbn [prune_table t_cons t_uuqs orb negb];
+      (apply (f_equal2 (@app op)); [|apply (f_equal2 (@app op)); [|apply (f_equal2 (@app op)); [|reflexivity]]]).
+    all: try reflexivity.
+    all: apply flat_map_ext; intros a; try (destruct (kfind _ _ _); auto); rewrite ?obj_removed_T, ?obj_added_T; reflexivity. Qed.
+  Lemma ciu_T_none tn mt : compare_indexes_and_uniques_f T iname tn None mt = compare_indexes_and_uniques tn None mt.
+  Proof. unfold compare_indexes_and_uniques_f, compare_indexes_and_uniques, conn_cons_f.
+    apply (f_equal2 (@app op)); [reflexivity|apply (f_equal2 (@app op)); [reflexivity|apply (f_equal2 (@app op)); [|reflexivity]]].
+    apply flat_map_ext. intros a. rewrite obj_added_T. reflexivity. Qed.
+
+  Lemma existing_T g c m : t_name c = t_name m -> existing_table_f T iname g c m = existing_table g (prune_table iname c) m.
+  Proof. intros E. unfold existing_table_f, existing_table. rewrite <- E, ciu_T_some. reflexivity. Qed.
+
+  Theorem diff_f_name_absent g conn meta : diff_f T iname g conn meta = diff g (prune iname conn) meta.
+  Proof. unfold diff_f, diff, compare_tables_f, compare_tables, prune.
+    rewrite (keys_map t_name (prune_table iname)); [|reflexivity]. rewrite flat_map_map.
+    apply (f_equal2 (@app op)); [|apply (f_equal2 (@app op))].
+    - apply flat_map_ext. intros m. destruct (memN _ _); auto.
+    - apply flat_map_ext. intros c. cbn [prune_table t_name]. destruct (memN _ _); auto;
+        try (unfold removed_table_f, removed_table; rewrite ciu_T_some; reflexivity).
+    - apply flat_map_ext. intros m. rewrite (kfind_map t_name (prune_table iname)); [|reflexivity].
+      destruct (kfind t_name (t_name m) (ftables iname conn)) as [c|] eqn:E; auto. cbn [option_map].
+      apply existing_T. apply kfind_some in E. tauto. Qed.
+End NameAbsent.
